@@ -156,6 +156,15 @@ def gen_c03(rng, tier):
             r_ = s.add("p%s dec %d @%d %d" % (w, p, a, nb * bs)); meta.append((r_, hexs(data)))
             a = s.add("p%s dec %d %s %d" % (w, p, hexs(data), nb * bs))
             r_ = s.add("p%s enc %d @%d %d" % (w, p, a, nb * bs)); meta.append((r_, hexs(data)))
+            # the same through output == input (a vector back end that re-reads blocks it has already overwritten transforms them
+            # twice), ragged counts above one parallel group included
+            nb = rng.choice([5, 9, 11, 12, 13, 15, 17, 21, 25, 27])
+            data = rbytes(rng, nb * bs)
+            f1, f2 = rng.choice([(" inplace", " inplace"), ("", " inplace"), (" inplace", "")])
+            a = s.add("p%s enc %d %s %d%s" % (w, p, hexs(data), nb * bs, f1))
+            r_ = s.add("p%s dec %d @%d %d%s" % (w, p, a, nb * bs, f2)); meta.append((r_, hexs(data)))
+            a = s.add("p%s dec %d %s %d%s" % (w, p, hexs(data), nb * bs, f2))
+            r_ = s.add("p%s enc %d @%d %d%s" % (w, p, a, nb * bs, f1)); meta.append((r_, hexs(data)))
         s.add("p%s cleanup %d" % (w, p))
         scripts.append(("skinny%s round trips" % w, s.text(), meta))
     # MANTIS: swap algebra
